@@ -101,7 +101,12 @@ def _queries(sA, sB, want_points):
         out["gjk_tetra"] = bool(g[3] is not None and monitors.simplex_is_tetrahedron(g[3], pa, pb))
         from .c01 import simplex_degeneracy
         out["gjk_degenerate"] = bool(g[3] is not None and simplex_degeneracy(g[3], pa, pb)[0] < 1e-6)
-    run("original", lambda: gjk.gjk_distance_original(A, B)[0])
+    def _orig():
+        r = gjk.gjk_distance_original(A, B)
+        # exact 0 with two identical closest points = the 'simplex is a tetrahedron' branch (mechanism of K24)
+        out["original_tetrahedron_branch"] = bool(r[0] == 0.0 and np.array_equal(r[1], r[2]))
+        return r[0]
+    run("original", _orig)
     run("nesterov", lambda: gjk.gjk_nesterov_accelerated_distance(A, B))
     run("b_jolt", lambda: bool(gjk.gjk_intersection(A, B)))
     run("b_libccd", lambda: bool(gjk.gjk_intersection_libccd(A, B)))
@@ -199,7 +204,8 @@ def _colliders(rng, idx):
             viol.append({"key": dict(key0, query="gjk", kind="exception-in-one-variant"), "err": None, "msg": "gjk: base %r variant %r" % (gb if exc(gb) else "ok", gv if exc(gv) else "ok")})
         asp = O.aspect_bucket(max(O.aspect(sA), O.aspect(sB)))
         zero_one = (not exc(base["original"]) and not exc(var["original"]) and (base["original"] == 0.0) != (var["original"] == 0.0))
-        scalar("original.distance", base["original"], var["original"], 1e-3, {"max_aspect": asp, "scene_aspect": O.aspect_bucket(O.scene_aspect(sA, sB)), "zero_in_one_variant": bool(zero_one)})
+        scalar("original.distance", base["original"], var["original"], 1e-3, {"max_aspect": asp, "zero_in_one_variant": bool(zero_one),
+                "tetrahedron_branch_in_one_variant": bool(base.get("original_tetrahedron_branch", False) != var.get("original_tetrahedron_branch", False))})
         scalar("nesterov.distance", base["nesterov"], var["nesterov"], 1e-3)
         if "primitives" in base and "primitives" in var:
             scalar("primitives.distance", base["primitives"], var["primitives"], 1e-3)
